@@ -72,6 +72,9 @@ def classes(sig, ir):
     sig["default_kinds"] = ",".join(sorted({A.vkind(p.get("default", O.ABSENT)) for p in ps}))
     sig["doc_kinds"] = ",".join(sorted({"doc" if p.get("doc") else "nodoc" for p in ps}))
     sig["n_params"] = len(ps)
+    # features that make a whole hop raise (exact lists of classes would differ for every tuple of parameters)
+    sig["has_dict_param"] = any(p.get("typ") == "dict" for p in ps)
+    sig["dotted_code_default"] = any(A.tclass(p.get("typ")) == "dotted" and A.vkind(p.get("default", O.ABSENT)) == "code" for p in ps)
     r = ir.get("returns")
     sig["ret"] = "none" if not r else ("default" if "default" in r["return_type"] else "plain")
     return sig
